@@ -42,6 +42,46 @@ def run(ctx, obs):
     loaders(ctx, obs)
     numbered_keys(ctx, obs)
     descriptors_unfiltered(ctx, obs)
+    lossless_writers(ctx, obs)
+
+
+NUMERIC_TYPES = {'float', 'int', 'complex', 'float64', 'float32', 'int64', 'int32', 'f8', 'f4', 'i8', 'i4', 'double', 'bool'}
+
+
+def lossless_writers(ctx, obs, rule='CODEC-cast'):
+    """What a writer stores is the value it was given: no numeric cast on the way to the file.  `value.astype(float)`,
+    `np.asarray(value, dtype=float)`, `float(value)` in the hdf5 / pkl writers turn strings that look like numbers ('01', '10'), integers
+    and booleans into floats - the reloaded descriptor is a different value.  (The byte-string encoding of unicode arrays,
+    `.astype('S')`, is undone by the reader and is the CODEC rule's business.)"""
+    prog = ctx.prog
+    n = 0
+    for q, f in sorted(prog.functions.items()):
+        if not (q.startswith('io.hdf5.') or q.startswith('io.pkl.')) or not (f.name.startswith('_write') or f.name.startswith('write')
+                                                                                 or '_write' in q or 'Writer' in q):
+            continue
+        for c in ast.walk(f.node):
+            if not isinstance(c, ast.Call):
+                continue
+            target_type = None
+            if isinstance(c.func, ast.Attribute) and c.func.attr == 'astype' and c.args:
+                target_type = c.args[0]
+            elif _leaf(c.func) in ('array', 'asarray', 'asanyarray', 'fromiter'):
+                target_type = next((k.value for k in c.keywords if k.arg == 'dtype'), None)
+            elif isinstance(c.func, ast.Name) and c.func.id in ('float', 'int', 'complex') and len(c.args) == 1 \
+                    and not isinstance(c.args[0], ast.Constant):
+                target_type = c.func
+            if target_type is None:
+                continue
+            tname = target_type.value if isinstance(target_type, ast.Constant) else _leaf(target_type)
+            n += 1
+            con = 'the stored value is not cast to a numeric type by the writer'
+            if isinstance(tname, str) and tname in NUMERIC_TYPES:
+                obs.bad(rule, q, con, f'`{norm(c)[:70]}`: whatever converts is stored as {tname} - numeric-looking strings, integers and '
+                        f'booleans are reloaded as other values', where(prog, f, c))
+            else:
+                obs.ok(rule, q, con, f'`{norm(c)[:50]}`', where(prog, f, c))
+    if n == 0:
+        obs.unk(rule, 'io.hdf5._write_list', 'casts in the writers', 'no dtype conversion found in the writers')
 
 
 def tables(ctx, obs):
